@@ -210,3 +210,91 @@ Qed.
 Lemma cached_entry_rebind_accepted_l :
   check pts_rebind hpts_rebind p_cached_entry_rebind = true.
 Proof. vm_compute. reflexivity. Qed.
+
+(* ------------------------------- a concrete reader (review finding 3) -- *)
+
+(* contract 1 holds for the script-guided interpreter on EVERY program *)
+Lemma rd_of_refines_l : forall fuel p res h args,
+  exists e', exec args p ([], h) (e', snd (rd_of fuel p res h args)).
+Proof.
+  intros fuel p res h args. unfold rd_of.
+  destruct (srun fuel args p [] ([], h)) as [[sc' [e' h']]|] eqn:E.
+  - exists e'. simpl. eapply srun_sound_l; eauto.
+  - exists []. simpl. apply ex_stop.
+Qed.
+
+Lemma value_oob : forall n h, value n h (length h) = Node 0 [].
+Proof.
+  intros [|n] h; simpl; auto.
+  assert (E : nth_error h (length h) = None) by (apply nth_error_None; lia). rewrite E. reflexivity.
+Qed.
+
+Lemma rd_reader_ex_eq : forall h a t,
+  rd_of 5 p_reader_ex 1%N h (a :: t) = (length h, h ++ [mkcell 7%N 0 [a]]).
+Proof. intros. reflexivity. Qed.
+
+Lemma rd_reader_ex_nil : forall h, rd_of 5 p_reader_ex 1%N h [] = (length h, h).
+Proof. intros. reflexivity. Qed.
+
+Lemma value_reader_ex : forall n h a, wf_heap h -> a < length h ->
+  value (S n) (h ++ [mkcell 7%N 0 [a]]) (length h) = Node 0 [value n h a].
+Proof.
+  intros n h a Hwf Ha. simpl. rewrite nth_error_app2 by lia. rewrite Nat.sub_diag. simpl.
+  rewrite value_app by assumption. reflexivity.
+Qed.
+
+(* contract 2 (locality) for the example reader *)
+Lemma rd_reader_ex_local_l : forall h extra args n, wf_heap h -> wf_heap (h ++ extra) -> args_ok args h ->
+  value n (snd (rd_of 5 p_reader_ex 1%N (h ++ extra) args)) (fst (rd_of 5 p_reader_ex 1%N (h ++ extra) args)) =
+  value n (snd (rd_of 5 p_reader_ex 1%N h args)) (fst (rd_of 5 p_reader_ex 1%N h args)).
+Proof.
+  intros h extra args n Hwf Hwf' Ha. destruct args as [|a t].
+  - rewrite !rd_reader_ex_nil. simpl. rewrite !value_oob. reflexivity.
+  - rewrite !rd_reader_ex_eq. cbn [fst snd].
+    assert (Hlt : a < length h) by (apply (Ha 0 a); reflexivity).
+    destruct n as [|n]; [reflexivity|].
+    rewrite !value_reader_ex; auto.
+    + rewrite value_app by assumption. reflexivity.
+    + rewrite app_length. lia.
+Qed.
+
+Lemma f_reader_ex_accepted_l : fn_accepted f_reader_ex = true.
+Proof. vm_compute. reflexivity. Qed.
+
+(* same_index_same_sample with contract 1 discharged for the interpreter `rd_of` (any accepted f of fs):
+   only locality of the reader remains a hypothesis *)
+Lemma same_index_same_sample_srun_l : forall fs, Forall (fun f => fn_accepted f = true) fs ->
+  forall f, In f fs -> forall fuel,
+  (forall h extra args n, wf_heap h -> wf_heap (h ++ extra) -> args_ok args h ->
+     value n (snd (rd_of fuel (f_body f) (f_ret f) (h ++ extra) args))
+             (fst (rd_of fuel (f_body f) (f_ret f) (h ++ extra) args)) =
+     value n (snd (rd_of fuel (f_body f) (f_ret f) h args)) (fst (rd_of fuel (f_body f) (f_ret f) h args))) ->
+  forall h pre args n, wf_heap h -> Forall (fun a => args_ok a h) pre -> args_ok args h ->
+  let h' := run_reads (rd_of fuel (f_body f) (f_ret f)) h pre in
+  value n (snd (rd_of fuel (f_body f) (f_ret f) h' args)) (fst (rd_of fuel (f_body f) (f_ret f) h' args)) =
+  value n (snd (rd_of fuel (f_body f) (f_ret f) h args)) (fst (rd_of fuel (f_body f) (f_ret f) h args)).
+Proof.
+  intros fs Hacc f Hin fuel Hloc. apply (same_index_same_sample_l fs Hacc f Hin); auto.
+  intros h args _ _. apply rd_of_refines_l.
+Qed.
+
+(* both contracts instantiated: the theorem's hypotheses are satisfiable by a reader that allocates and
+   whose result refers to a pre-existing object; its conclusion holds for it after ANY history of reads *)
+Lemma ex_reader_same_index_l : forall h pre args n,
+  wf_heap h -> Forall (fun a => args_ok a h) pre -> args_ok args h ->
+  let rd := rd_of 5 p_reader_ex 1%N in
+  let h' := run_reads rd h pre in
+  value n (snd (rd h' args)) (fst (rd h' args)) = value n (snd (rd h args)) (fst (rd h args)).
+Proof.
+  intros h pre args n Hwf Hpre Ha.
+  apply (same_index_same_sample_srun_l [f_reader_ex]
+           (Forall_cons _ f_reader_ex_accepted_l (Forall_nil _)) f_reader_ex (or_introl eq_refl) 5); auto.
+  exact rd_reader_ex_local_l.
+Qed.
+
+(* ... and the history really grows the heap (the example is not the identity reader) *)
+Lemma ex_reader_allocates_l :
+  run_reads (rd_of 5 p_reader_ex 1%N) [mkcell 0%N 3 []] [[0]; [0]] <> [mkcell 0%N 3 []] /\
+  value 2 (snd (rd_of 5 p_reader_ex 1%N [mkcell 0%N 3 []] [0])) (fst (rd_of 5 p_reader_ex 1%N [mkcell 0%N 3 []] [0]))
+  = Node 0 [Node 3 []].
+Proof. split; [vm_compute; discriminate|reflexivity]. Qed.
